@@ -4,7 +4,7 @@ Several real monorail processes are started on one repository with small random 
 hook events (guarded build, system-wide monotonic stamps) and the driver's start / kill / exit events are merged by stamp
 and handed to TLC, which looks for an interleaving of the two unlogged instants (the bind itself, the release at process
 exit) that makes the event list a behaviour of Monorail.tla ending in the out directory as it was found."""
-import json, os, random, time
+import json, os, random, subprocess, time
 from concurrent.futures import ThreadPoolExecutor
 import vlib, fixture, session
 
@@ -45,6 +45,7 @@ def scenario(bins, idx, rng):
                     events.append({"e": "commit", "ts": time.monotonic_ns(), "p": 0})
         nproc = 0
         procs = []
+        reader_ids = []
         for wave in range(rng.randint(1, 2)):
             env_round()
             wave_procs = []
@@ -59,6 +60,15 @@ def scenario(bins, idx, rng):
                 p = fx.spawn(ARGS[api], env={"MONORAIL_VERIF_TRACE": trace}, stdout=so, stderr=se)
                 wave_procs.append((nproc, api, p, trace, so, se))
                 time.sleep(rng.choice([0, 0, 0.002, 0.01, 0.03]))
+            # readers next to them (no lock, no hooks): `result show` at some moment while the others are at work
+            readers = []
+            for _ in range(rng.choice([0, 1, 1, 2])):
+                nproc += 1
+                time.sleep(rng.choice([0, 0.003, 0.015, 0.05]))
+                ro = open(os.path.join(fx.root, "fr-%d.out" % nproc), "wb")
+                ts0 = time.monotonic_ns()
+                rp = fx.spawn(["result", "show"], stdout=ro, stderr=subprocess.DEVNULL)
+                readers.append((nproc, rp, ro, ts0))
             victim = rng.choice(wave_procs) if rng.random() < 0.35 else None
             if victim is not None:
                 time.sleep(rng.choice([0, 0.005, 0.02, 0.06]))
@@ -98,6 +108,22 @@ def scenario(bins, idx, rng):
                             events.append(ev)
                 except OSError:
                     pass
+            for (n, rp, ro, ts0) in readers:
+                rp.wait(timeout=120)
+                ts = time.monotonic_ns()
+                ro.close()
+                slot = 0
+                try:
+                    doc = json.load(open(os.path.join(fx.root, "fr-%d.out" % n)))
+                    slot = int(os.path.basename(doc["out"]["run"]["path"].rstrip("/")))
+                except (OSError, ValueError, KeyError, TypeError):
+                    slot = 0
+                ok = rp.returncode == 0 and 1 <= slot <= NSLOTS
+                if rp.returncode == 0 and not ok:
+                    continue            # an answer the driver cannot place (shape drift): the reader is left out of the trace
+                events.append({"e": "start", "p": n, "api": "result_show", "ts": ts0})
+                events.append({"e": "shown", "p": n, "ok": ok, "slot": slot if ok else 0, "ts": ts})
+                reader_ids.append(n)
             procs += wave_procs
         # order: by stamp; the driver's own stamps bracket the processes' (start before spawn, exit after reaping)
         events.sort(key=lambda e: e["ts"])
@@ -119,7 +145,7 @@ def scenario(bins, idx, rng):
         if any(s["stage"] == "torn-result" for s in real["slots"]):
             fin["slots"] = ["torn-result" if s["stage"] == "torn-result" else x for s, x in zip(real["slots"], fin["slots"])]
         trace_events = [{k: v for k, v in e.items() if k != "ts"} for e in events] + [{"e": "final", "p": 0, "final": fin}]
-        return {"idx": idx, "nproc": nproc, "events": trace_events, "apis": [a for (_, a, *_rest) in procs]}
+        return {"idx": idx, "nproc": nproc, "events": trace_events, "apis": [a for (_, a, *_rest) in procs], "readers": reader_ids}
     finally:
         fx.cleanup()
 
@@ -192,6 +218,18 @@ def stage(chk, bins, pid, n):
             if ok:
                 acc += 1
                 continue
+            if rec.get("readers"):
+                # a rejection may come from a reader alone (beyond the listed properties): judge the lock discipline on
+                # the trace without the readers, and report the readers as drift
+                bare = dict(rec, events=[e for e in rec["events"] if e.get("p") not in rec["readers"]], readers=[])
+                ok2, _ = validate(bare, tmp)
+                if ok2:
+                    acc += 1
+                    chk.notes.append({"MODEL-DRIFT": "free-running trace %d: a concurrent `result show` answered something no instant of the explained behaviour offers" % rec["idx"],
+                                      "readers": [e for e in rec["events"] if e.get("e") == "shown"]})
+                    print("NOTE: MODEL-DRIFT free-running trace %d: concurrent reader not explained" % rec["idx"])
+                    continue
+                rec = bare
             k = explained_prefix(rec, tmp)
             tag, why = classify(rec, k)
             if tag == pid:
